@@ -61,7 +61,7 @@ edge orders are *inputs* (the harness passes the implementation's own arrays thr
 API used by other clusters (keep stable): `lowerIdx`, `triSize`, `rowIndices`, `colStart`,
 `colIndices`, `toLowerTri`, `toUpperTri`, `upperPerm`, `reduceat`, `Ops`, `linOps`, `logOps`,
 `logsumexp`, `DEdge`, `Input`, `groupRuns`, `edgeMsg`, `InsideState`, `insidePass`, `outsidePass`,
-`posteriorGrid`.
+`posteriorGrid`, `SpanEdge`, `edgeOfMut`, `mutEdges`, `Space`, `PriorObj`, `forceSpace`, `runPrior`, `runSeq`.
 -/
 import TsdateVerif.Model.Arr
 
@@ -367,5 +367,84 @@ def posteriorProbs {α β : Type} [Add α] [Sub α] [Mul α] [Div α] [OfNat α 
     (o : Ops β) (toLin : β → α) (row : List β) : List α :=
   let m := o.maxl (row.drop 1)
   normalise ((row.map (fun v => o.ratio v m)).map toLin)
+
+/-! ## Mutation counts per edge (`Likelihoods.get_mut_edges`)
+
+    mut_edges = np.zeros(ts.num_edges, dtype=np.int64)
+    for m in ts.mutations():
+        if m.edge != tskit.NULL:
+            mut_edges[m.edge] += 1
+
+`m.edge` is tskit's "the edge whose child is the mutation's node at the site's position" (NULL when the
+node has no parent there: a mutation above a root).  The model recomputes it from the edge table, so
+the counts that select the likelihood tables are tied to the tree itself. -/
+
+/-- an edge with its genomic interval -/
+structure SpanEdge (α : Type) where
+  id : Nat
+  left : α
+  right : α
+  p : Nat
+  c : Nat
+
+section Mut
+variable {α : Type} [LE α] [LT α] [DecidableLE α] [DecidableLT α]
+
+/-- `mutation.edge`: the edge above `node` at position `pos`, `none` for `tskit.NULL`. -/
+def edgeOfMut (es : List (SpanEdge α)) (pos : α) (node : Nat) : Option Nat :=
+  (es.find? (fun e => e.c == node && decide (e.left ≤ pos) && decide (pos < e.right))).map (·.id)
+
+/-- one iteration of the loop of `get_mut_edges` -/
+def mutEdgesStep (es : List (SpanEdge α)) (acc : Array Nat) (m : α × Nat) : Array Nat :=
+  match edgeOfMut es m.1 m.2 with
+  | some i => aset acc i (aget acc i + 1)
+  | none => acc
+
+/-- `Likelihoods.get_mut_edges`: mutations given as (site position, node). -/
+def mutEdges (numEdges : Nat) (es : List (SpanEdge α)) (muts : List (α × Nat)) : Array Nat :=
+  muts.foldl (mutEdgesStep es) (Array.replicate numEdges 0)
+
+end Mut
+
+/-! ## The prior object and its probability-space tag (`NodeTimeValues.force_probability_space`,
+called by `BeliefPropagation.__init__` on the *user's* prior object, in place)
+
+    self.priors.force_probability_space(lik.probability_space)
+
+    def force_probability_space(self, probability_space):
+        if probability_space == LIN_GRID:
+            if self.probability_space == LOG_GRID:
+                self.grid_data = np.exp(self.grid_data); self.probability_space = LIN_GRID
+        elif probability_space == LOG_GRID:
+            if self.probability_space == LIN_GRID:
+                self.grid_data = np.log(self.grid_data); self.probability_space = LOG_GRID
+-/
+
+inductive Space
+  | lin
+  | log
+deriving DecidableEq, Repr, Inhabited
+
+/-- a prior grid object: the tag and the data it currently holds -/
+structure PriorObj (α : Type) where
+  space : Space
+  grid : Array (Array α)
+
+/-- `force_probability_space` (`toLog = np.log`, `toLin = np.exp`). -/
+def forceSpace {α : Type} (toLog toLin : α → α) (s : Space) (p : PriorObj α) : PriorObj α :=
+  match p.space, s with
+  | Space.lin, Space.log => { space := Space.log, grid := p.grid.map (·.map toLog) }
+  | Space.log, Space.lin => { space := Space.lin, grid := p.grid.map (·.map toLin) }
+  | _, _ => p
+
+/-- What a run in space `s` does to the shared prior object before anything else
+(`BeliefPropagation.__init__`): the passes then read `(runPrior … s p).grid`. -/
+def runPrior {α : Type} (toLog toLin : α → α) (s : Space) (p : PriorObj α) : PriorObj α :=
+  forceSpace toLog toLin s p
+
+/-- a sequence of runs on one shared prior object; returns the object seen by every run -/
+def runSeq {α : Type} (toLog toLin : α → α) : List Space → PriorObj α → List (PriorObj α)
+  | [], _ => []
+  | s :: rest, p => runPrior toLog toLin s p :: runSeq toLog toLin rest (runPrior toLog toLin s p)
 
 end Tsdate.Discrete
